@@ -98,6 +98,10 @@ def base_tree(rng, n_lo=3, n_hi=9, p_bad=0.15, long_bias=0.0, weird=0.0, extras=
     if rng.random() < weird:
         for p in rng.sample(WEIRD, rng.randint(1, 2)):
             placed[p] = pick_content(rng, lang_of_path(p) or "py", 0.0, 0.3)
+        if rng.random() < 0.4:
+            # canonically equivalent spellings (composed / decomposed) side by side
+            placed["café.py"] = pick_content(rng, "py", 0.0, 0.3)
+            placed["cafe\u0301.py"] = pick_content(rng, "py", 0.0, 0.3)
     if placed and rng.random() < 0.3:
         # the same bytes under another language's extension (e.g. a C text as .cpp / .cs / .java):
         # per-content (rather than per-path-and-language) handling becomes visible
